@@ -26,6 +26,9 @@ from .c17 import describe
 def run(ctx):
     facts = ctx.bin
     P = "C03-R1"
+    from . import gram
+    gram.literal_text_premises(ctx, ctx.grammar, "C03-G")
+    gram.g18_message_not_key(ctx, ctx.grammar, "C03-G")
     m = edit.anchor(ctx, facts, P, edit.INSERT_MAP, "InsertReferencesProcessor::map (async body)")
     if m is not None:
         prov = Prov(m, stop_at=(r"AsyncTempFile::(path|file)$",))
